@@ -27,6 +27,10 @@ pub enum Ty {
   Rc_(Box<Ty>),
   Arc_(Box<Ty>),
   ManuallyDrop(Box<Ty>),
+  /// a raw pointer obtained from an owning container (into_raw / as_mut_ptr): still the container, for the model
+  RawCont(Box<Ty>),
+  /// a bare address (BoxBytes' NonNull<u8> and what is cast from it); the pointee type is kept for from_raw
+  Addr(Box<Ty>),
   BoxBytes,
   Layout,
   Unknown,
@@ -39,6 +43,18 @@ impl Ty {
   pub fn pointee(&self) -> Option<&Ty> {
     match self {
       Ty::Ref(t) => Some(t),
+      _ => None,
+    }
+  }
+  pub fn is_container(&self) -> bool {
+    matches!(self, Ty::Box_(_) | Ty::Vec_(_) | Ty::Rc_(_) | Ty::Arc_(_) | Ty::ManuallyDrop(_))
+  }
+  /// element type of a container: `T` for `Vec<T>`, `Box<[T]>`, ...; the pointee for `Box<T>`
+  pub fn cont_elem(&self) -> Option<&Ty> {
+    match self {
+      Ty::Vec_(e) => Some(e),
+      Ty::Box_(t) | Ty::Rc_(t) | Ty::Arc_(t) | Ty::RawCont(t) => match &**t { Ty::SliceOf(e) => Some(e), other => Some(other) },
+      Ty::ManuallyDrop(t) => t.cont_elem(),
       _ => None,
     }
   }
@@ -171,7 +187,8 @@ pub fn coq_type(t: &Ty) -> Result<String, String> {
     }
     Ty::PErr => "perr".into(),
     Ty::CErr => "cerr".into(),
-    Ty::Box_(_) | Ty::Vec_(_) | Ty::Rc_(_) | Ty::Arc_(_) | Ty::ManuallyDrop(_) => "cont".into(),
+    Ty::Box_(_) | Ty::Vec_(_) | Ty::Rc_(_) | Ty::Arc_(_) | Ty::ManuallyDrop(_) | Ty::RawCont(_) => "cont".into(),
+    Ty::Addr(_) => "N".into(),
     Ty::BoxBytes => "boxbytes".into(),
     Ty::Layout => "layout".into(),
     Ty::Unknown => return Err("unknown type".into()),
@@ -222,6 +239,8 @@ pub fn subst(t: &Ty, s: &std::collections::HashMap<String, Ty>) -> Ty {
     Ty::Rc_(x) => Ty::Rc_(b(x)),
     Ty::Arc_(x) => Ty::Arc_(b(x)),
     Ty::ManuallyDrop(x) => Ty::ManuallyDrop(b(x)),
+    Ty::RawCont(x) => Ty::RawCont(b(x)),
+    Ty::Addr(x) => Ty::Addr(b(x)),
     _ => t.clone(),
   }
 }
